@@ -27,7 +27,7 @@ def run(r: core.Run):
                      "accept what the plain one rejects; sequences of statements through ONE semantic parser instance must yield "
                      "the same acceptance and the same Statement dump as fresh instances; non-trivial = distinct accepted inputs + "
                      "distinct statement sequences")
-    d = os.path.join(core.BUILD, "scratch")
+    d = core.SCRATCH
     os.makedirs(d, exist_ok=True)
     base = os.path.join(d, "C18")
     tie = None
